@@ -43,7 +43,8 @@ SPECIES = {  # KROME idx token -> (alias suffix rule) expected alias
     # neutral species whose names end in letters that also spell a charge suffix in lower case (phosphorus: P; no 'p')
     "CP": "CPI", "HCP": "HCPI", "PN": "PNI", "PH": "PHI", "CPp": "CPII",
 }
-NUMS = ["1.0d-10", "2.d0", "1d0", "3.0e2", "0.5", "7", "2", "1.5d-3", "6.9e-1", "3.92d-13", "0.6353d0", "100", "1e3", "2.5", "4.0d0"]
+NUMS = ["1.0d-10", "2.d0", "1d0", "3.0e2", "0.5", "7", "2", "1.5d-3", "6.9e-1", "3.92d-13", "0.6353d0", "100", "1e3", "2.5", "4.0d0",
+        "2d0", "3d0", "5d0", "3d2"]  # double-precision literals without a decimal point: reals, whatever follows (2d0/3d0 is 0.667)
 
 
 def budget(tier):
@@ -245,6 +246,17 @@ def compare_text(text, tree, seed, failures, labels, origin=""):
                 key = "krome/pow-chain-left-assoc"
             else:
                 key = "krome/value-changed"
+                # third known-wrong reading (same root cause as signed-literal-power-base: the sign is lexed into the number):
+                # 'x**Tgas+1.0d-10' - the signed literal that follows an identifier is glued to it, so it ends up inside the
+                # power. Alternative oracle: the same text with a blank between identifier and sign translates correctly.
+                spaced = re.sub(r"(?<=[\w)])(?<![\d.][dDeE])([+-])(?=[\d.])", r" \1 ", text)  # (not the sign of an exponent)
+                if spaced != text:
+                    try:
+                        got2 = eval_c(translate(spaced), env, nvals)
+                        if R.close(float(got2), float(want), 1e-12):
+                            key = "krome/signed-literal-glued-to-identifier"
+                    except Exception:
+                        pass
             failures.append((key, f"{origin}{text!r} -> {ctext!r}: C value {got!r} but Fortran value {want!r} at valuation #{k}"))
             return "translated", ctext
     return "translated", ctext
